@@ -3,8 +3,8 @@ package main
 import (
 	"fmt"
 	"go/token"
-	"os"
 	"go/types"
+	"os"
 	"sort"
 	"strings"
 
@@ -45,16 +45,16 @@ type aobj struct {
 }
 
 type av struct {
-	k     int
-	isNil bool // bytes / slice / ptr nil
-	sym   int  // bytes: symbol id
-	i     int64
-	b     bool
-	obj   *aobj
-	off   int // ptr: field/element offset, -1 = whole object
-	lo    int // slice window
-	hi    int
-	tup   []av
+	k        int
+	isNil    bool // bytes / slice / ptr nil
+	sym      int  // bytes: symbol id
+	i        int64
+	b        bool
+	obj      *aobj
+	off      int // ptr: field/element offset, -1 = whole object
+	lo       int // slice window
+	hi       int
+	tup      []av
 	emptyStr bool // bytes: the constant empty string
 }
 
@@ -1252,11 +1252,11 @@ func rulePrefixAlg(p *Prog, r *Result) {
 	}
 	total := 0
 	type acc struct {
-		n                     int
+		n                    int
 		unsound, loose, errs []string
-		open2                 []string
-		pos                   string
-		mode                  string
+		open2                []string
+		pos                  string
+		mode                 string
 	}
 	accs := map[string]*acc{}
 	var order []string
